@@ -232,6 +232,11 @@ class RefSFTPServer:
         self.failed_reads = 0
         self.failed_writes = 0
         self.eofs_served = 0
+        # hostile listings: dir path -> [(raw name bytes, kind, extra)]
+        # kind: 'file' (extra=content), 'dir', 'symlink' (extra=target)
+        self.listing = {}
+        self.nodes = {}
+        self.links = {}
 
     # ---- session plumbing (used by the asyncssh server session below)
 
@@ -291,7 +296,38 @@ class RefSFTPServer:
         self.handles[h] = obj
         return h
 
-    def _attrs_reply(self, rid, path):
+    def add_listing(self, dirpath, entries):
+        import posixpath
+        self.listing[dirpath] = entries
+        self.nodes.setdefault(dirpath, ('dir', None))
+        for name, kind, extra in entries:
+            full = posixpath.join(dirpath, name)
+            self.nodes[full] = (kind, extra)
+            if kind == 'symlink':
+                self.links[full] = extra
+            if kind == 'file':
+                self.files[full] = bytearray(extra)
+
+    def _node_attrs(self, kind, extra, lstat):
+        if kind == 'dir':
+            return attrs_for(self.version, size=0, perm=0o40755, ftype=2,
+                             mtime=1700000000)
+        if kind == 'symlink' and lstat:
+            return attrs_for(self.version, size=len(extra), perm=0o120777,
+                             ftype=3, mtime=1700000000)
+        if kind == 'symlink':
+            return attrs_for(self.version, size=0, perm=0o40755, ftype=2,
+                             mtime=1700000000)
+        return attrs_for(self.version, size=len(extra), perm=0o100644,
+                         mtime=1700000000)
+
+    def _attrs_reply(self, rid, path, lstat=False):
+        if path in self.nodes:
+            kind, extra = self.nodes[path]
+            self.log.append(('rsp', rid, FXP_ATTRS))
+            self.send(FXP_ATTRS, u32(rid) + self._node_attrs(kind, extra,
+                                                             lstat))
+            return
         if path in self.files:
             size = self.plan.get('stat_size', {}).get(path,
                                                       len(self.files[path]))
@@ -319,7 +355,43 @@ class RefSFTPServer:
             body += attrs_for(v, size=0, perm=0o40755, ftype=2)
             self.send(FXP_NAME, body)
         elif t in (FXP_STAT, FXP_LSTAT):
-            self._attrs_reply(rid, r.str())
+            self._attrs_reply(rid, r.str(), lstat=(t == FXP_LSTAT))
+        elif t == FXP_OPENDIR:
+            path = r.str()
+            if path not in self.listing:
+                self.status(rid, FX_NO_SUCH_FILE, 'no such dir')
+                return
+            h = self._handle({'dir': path, 'pos': 0})
+            self.log.append(('rsp', rid, FXP_HANDLE))
+            self.send(FXP_HANDLE, u32(rid) + sstr(h))
+        elif t == FXP_READDIR:
+            h = r.str()
+            ent = self.handles[h]
+            if ent['pos']:
+                self.status(rid, FX_EOF, 'eof')
+                return
+            ent['pos'] = 1
+            names = self.listing[ent['dir']]
+            body = u32(rid) + u32(len(names))
+            for name, kind, extra in names:
+                body += sstr(name)
+                if v <= 3:
+                    body += sstr(b'-rw-r--r-- 1 u g 0 Jan 1 00:00 ' + name)
+                body += self._node_attrs(kind, extra, True)
+            self.log.append(('rsp', rid, FXP_NAME))
+            self.send(FXP_NAME, body)
+        elif t == FXP_READLINK:
+            path = r.str()
+            if path not in self.links:
+                self.status(rid, FX_NO_SUCH_FILE, 'not a link')
+                return
+            target = self.links[path]
+            self.log.append(('rsp', rid, FXP_NAME))
+            body = u32(rid) + u32(1) + sstr(target)
+            if v <= 3:
+                body += sstr(target)
+            body += attrs_for(v)
+            self.send(FXP_NAME, body)
         elif t == FXP_FSTAT:
             h = r.str()
             self._attrs_reply(rid, self.handles[h]['path'])
